@@ -31,6 +31,39 @@ func strip(v ssa.Value) ssa.Value {
 	}
 }
 
+// through is strip that also looks through loads of variables assigned
+// exactly once (a hoisted temporary, possibly captured by a closure): such a
+// load is the assigned value.
+func through(v ssa.Value) ssa.Value {
+	for i := 0; i < 8; i++ {
+		v = strip(v)
+		u, ok := v.(*ssa.UnOp)
+		if !ok || u.Op != token.MUL {
+			return v
+		}
+		sv, ok := singleStoreCached(u.X)
+		if !ok {
+			return v
+		}
+		v = sv
+	}
+	return v
+}
+
+var singleStoreCache = map[ssa.Value]ssa.Value{}
+
+func singleStoreCached(addr ssa.Value) (ssa.Value, bool) {
+	if v, ok := singleStoreCache[addr]; ok {
+		return v, v != nil
+	}
+	v, ok := singleStoreValue(addr)
+	if !ok {
+		v = nil
+	}
+	singleStoreCache[addr] = v
+	return v, v != nil
+}
+
 // stripConv additionally removes numeric conversions (used where only the
 // mathematical value matters, never where the width matters).
 func stripConv(v ssa.Value) ssa.Value {
